@@ -16,7 +16,8 @@
 (*   verify    _sha256(file_path) vs remote.checksum        :195   Verify  *)
 (*   parse     np.loadtxt(archive_path)                     :258   Parse   *)
 (*   dump      open(tmp/<slot name>, "wb"); first half      :262   DumpBegin *)
-(*   dumpmid   ... second half of the pickle, close                DumpEnd *)
+(*   dumpmid   ... second half of the pickle written (buffered)    DumpEnd *)
+(*   dumpclose the file object is closed: the tail reaches disk    DumpClose *)
 (*   rename    os.rename(tmp/<slot name>, slot)             :263   Rename  *)
 (*   cleanup   TemporaryDirectory.__exit__                  :253   Cleanup *)
 (*   read      pickle.load(open(slot, "rb"))                :267   Read    *)
@@ -78,7 +79,7 @@ None    == <<"none", "", "">>
 Exc(c)  == <<"exc", c, "">>
 NoTmp   == [dir |-> FALSE, dl |-> "absent", pk |-> "absent"]
 
-Live  == {"start", "mkdir", "dl", "dlmid", "retry", "verify", "parse", "dump", "dumpmid",
+Live  == {"start", "mkdir", "dl", "dlmid", "retry", "verify", "parse", "dump", "dumpmid", "dumpclose",
           "rename", "cleanup", "read", "ret"}
 PCs   == Live \cup {"idle", "done", "crashed"}
 Terminal(p) == pc[p] \in {"done", "crashed"}
@@ -197,15 +198,20 @@ DumpBegin(p) ==
     /\ Goto(p, "dumpmid") /\ Label("DumpBegin", p)
     /\ UNCHANGED <<cfg, slot, net, left, mem, pend, res, att, fails, last, hit, taint>>
 
-DumpEnd(p) ==
+DumpEnd(p) ==                    \* pickle.dump returns: the second half sits in the writer's buffer, not on disk
     /\ pc[p] = "dumpmid"
+    /\ Goto(p, "dumpclose") /\ Label("DumpEnd", p)
+    /\ UNCHANGED <<cfg, slot, tmp, net, left, mem, pend, res, att, fails, last, hit, taint>>
+
+DumpClose(p) ==                  \* the file object is released / closed: now the temp file is a complete pickle
+    /\ pc[p] = "dumpclose"
     /\ tmp' = [tmp EXCEPT ![p].pk = mem[p]]
-    /\ Goto(p, "rename") /\ Label("DumpEnd", p)
+    /\ Goto(p, "rename") /\ Label("DumpClose", p)
     /\ UNCHANGED <<cfg, slot, net, left, mem, pend, res, att, fails, last, hit, taint>>
 
-Rename(p) ==                     \* atomic: the slot changes from its old content to the complete pickle
-    /\ pc[p] = "rename"
-    /\ slot' = [slot EXCEPT ![S(p)] = Data(cfg[p].d, tmp[p].pk)]
+Rename(p) ==                     \* atomic: the slot changes from its old content to the temp file AS IT IS on disk
+    /\ pc[p] = "rename"                  \* (a complete pickle, because DumpClose comes first)
+    /\ slot' = [slot EXCEPT ![S(p)] = IF tmp[p].pk \in {"good", "bad"} THEN Data(cfg[p].d, tmp[p].pk) ELSE Partial]
     /\ tmp' = [tmp EXCEPT ![p].pk = "absent"]
     /\ taint' = IF tmp[p].pk = "bad" /\ ~cfg[p].val THEN taint \cup {S(p)} ELSE taint
     /\ pend' = [pend EXCEPT ![p] = Data(cfg[p].d, mem[p])]
@@ -250,7 +256,7 @@ ProbeStart(q) ==                 \* a later load: default arguments, healthy net
     /\ UNCHANGED <<slot, tmp, mem, pend, res, att, fails, last, hit, taint>>
 
 Step(p) == \/ Stat(p) \/ Mkdir(p) \/ DlBegin(p) \/ DlEnd(p) \/ Retry(p) \/ Verify(p) \/ Parse(p)
-           \/ DumpBegin(p) \/ DumpEnd(p) \/ Rename(p) \/ Cleanup(p) \/ Read(p) \/ Return(p)
+           \/ DumpBegin(p) \/ DumpEnd(p) \/ DumpClose(p) \/ Rename(p) \/ Cleanup(p) \/ Read(p) \/ Return(p)
            \/ ProbeStart(p)
 
 Next == \E p \in All : Step(p) \/ Crash(p)
